@@ -444,6 +444,7 @@ int
 step_set_keyval(struct step_file *sf, struct step *st, const char *kv,
     struct arena *scratch)
 {
+	const struct field_definition *fd;
 	const char *val;
 	char *key;
 	size_t keylen;
@@ -459,6 +460,19 @@ step_set_keyval(struct step_file *sf, struct step *st, const char *kv,
 	keylen = (size_t)(val - kv);
 	key = arena_strndup(&s, kv, keylen);
 	val++; /* consume '=' */
+
+	/*
+	 * Reject string values that cannot be written and read back verbatim:
+	 * field and row separators, interpolation references and empty
+	 * mandatory fields.
+	 */
+	fd = field_definition_find_by_name(key);
+	if (fd != NULL && fd->fd_type == STRING &&
+	    (strpbrk(val, ",\n$") != NULL ||
+	     (val[0] == '\0' && (fd->fd_flags & OPTIONAL) == 0))) {
+		warnx("invalid value '%s' for key '%s'", val, key);
+		return 1;
+	}
 
 	if (step_set_field(sf, st, key, val)) {
 		warnx("unknown key '%s'", key);
